@@ -1,6 +1,6 @@
 (* C12/Proofs.v — lemmas behind C12/Properties.v (the bulk is in Scale/*Proofs.v). *)
 From Common Require Import Bytes Outcome.
-From Scale Require Import Compact CompactProofs Types Spec Codec EncodeProofs MonadLemmas RoundTrip Prefix Total Cost.
+From Scale Require Import Compact CompactProofs Types Spec Codec EncodeProofs MonadLemmas RoundTrip Prefix Total Cost Mono.
 From C12 Require Import Model.
 Local Open Scope N_scope.
 
@@ -56,8 +56,6 @@ Qed.
 (* on the current tree the same holds whenever neither finding guard fires, because then the
    current decoder and the ideal one agree ... stated directly: if the decoder with the two
    hypothetical repairs (bytes, strict maps) returns the same result, the result is canonical *)
-Definition repaired (c : cfg) : cfg := strict (with_bytes c).
-
 Lemma prefix_current_partial t bs v r :
   wf_ty t = true -> decode_res current t bs = Ok (v, r) ->
   decode_res (repaired current) t bs = Ok (v, r) ->
@@ -134,4 +132,91 @@ Lemma alloc_current_refuted :
                decode_cost ideal t bs <= 5000.
 Proof.
   exists TBytes, [b 2; b 0; b 4; b 0; b 65]. vm_compute. repeat split; try reflexivity; discriminate.
+Qed.
+
+(* ---- second round (auditor): the canonicity / truncation / non-canonical statements on the
+   CURRENT tree, under exactly the guards the driver uses *)
+
+(* when neither finding guard fires on an accepted input, the decoder with both hypothetical
+   repairs returns the same result *)
+Lemma guards_give_repaired t bs v r :
+  wf_ty t = true -> decode_res current t bs = Ok (v, r) ->
+  bytes_overrun t bs = false -> map_noncanonical t bs = false ->
+  decode_res (repaired current) t bs = Ok (v, r).
+Proof.
+  intros W C G1 G2.
+  (* the chunked decoder does not fail (guard 1), panic or run out of fuel (totality) *)
+  assert (T1 : decode_res (with_bytes current) t bs <> Panic /\ decode_res (with_bytes current) t bs <> OutOfFuel).
+  { unfold decode_res, run_decode. exact (decode_total (with_bytes current) eq_refl eq_refl t bs 0 W). }
+  unfold bytes_overrun in G1. rewrite C in G1.
+  destruct (decode_res (with_bytes current) t bs) as [[v1 r1]|e| |] eqn:E1;
+    [|discriminate G1|now destruct T1|now destruct T1].
+  (* it returns what the tree returns *)
+  assert (M1 : decode_res current t bs = Ok (v1, r1)).
+  { apply (decode_res_mono current (with_bytes current)); try reflexivity; try exact E1; intro X; exact X || reflexivity. }
+  rewrite C in M1. injection M1 as <- <-.
+  (* the strict decoder does not fail either (guard 2) *)
+  assert (T2 : decode_res (repaired current) t bs <> Panic /\ decode_res (repaired current) t bs <> OutOfFuel).
+  { unfold decode_res, run_decode. exact (decode_total (repaired current) eq_refl eq_refl t bs 0 W). }
+  unfold map_noncanonical in G2. rewrite E1 in G2.
+  destruct (decode_res (repaired current) t bs) as [[v2 r2]|e| |] eqn:E2;
+    [|discriminate G2|now destruct T2|now destruct T2].
+  assert (M2 : decode_res (with_bytes current) t bs = Ok (v2, r2)).
+  { apply (decode_res_mono (with_bytes current) (repaired current)); try reflexivity; try exact E2; intro X; exact X || reflexivity. }
+  rewrite E1 in M2. injection M2 as <- <-. reflexivity.
+Qed.
+
+(* canonicity on the tree, outside the two finding guards *)
+Lemma prefix_guarded t bs v r :
+  wf_ty t = true -> decode_res current t bs = Ok (v, r) ->
+  bytes_overrun t bs = false -> map_noncanonical t bs = false ->
+  has_type v t = true /\ bs = spec_encode t v ++ r.
+Proof.
+  intros W C G1 G2. apply (prefix_current_partial t bs v r W C). now apply guards_give_repaired.
+Qed.
+
+(* truncated input fails on the tree, outside the guards (the guard bytes_overrun is where the
+   tree zero-fills a truncated byte string) *)
+Lemma truncation_guarded t v p s :
+  wf_ty t = true -> has_type v t = true -> spec_encode t v = p ++ s -> s <> [] ->
+  bytes_overrun t p = false -> map_noncanonical t p = false ->
+  forall w r, decode_res current t p <> Ok (w, r).
+Proof.
+  intros W H E NE G1 G2 w r D.
+  destruct (prefix_guarded t p w r W D G1 G2) as [Hw Ep].
+  assert (R1 : decode_res ideal t (spec_encode t w ++ (r ++ s)) = Ok (w, r ++ s)).
+  { rewrite <- (encode_canonical t w Hw). unfold decode_res, run_decode.
+    destruct (decode_encode ideal eq_refl t w (r ++ s) W Hw (or_introl eq_refl) 0) as [m' ->]. reflexivity. }
+  assert (R2 : decode_res ideal t (spec_encode t v ++ []) = Ok (v, [])).
+  { rewrite <- (encode_canonical t v H). unfold decode_res, run_decode.
+    destruct (decode_encode ideal eq_refl t v [] W H (or_introl eq_refl) 0) as [m' ->]. reflexivity. }
+  rewrite app_nil_r, E, Ep, <- app_assoc in R2. rewrite R1 in R2. injection R2 as _ R2.
+  destruct r; destruct s; try discriminate R2. now apply NE.
+Qed.
+
+(* non-canonical input is rejected on the tree, outside the guards *)
+Lemma noncanonical_guarded t bs :
+  wf_ty t = true -> (forall v r, has_type v t = true -> bs <> spec_encode t v ++ r) ->
+  bytes_overrun t bs = false -> map_noncanonical t bs = false ->
+  forall w r, decode_res current t bs <> Ok (w, r).
+Proof.
+  intros W NC G1 G2 w r D. destruct (prefix_guarded t bs w r W D G1 G2) as [Hw E]. exact (NC w r Hw E).
+Qed.
+
+(* the guards are narrow: on an accepted input a guard fires ONLY IF the accepted value is not
+   canonical for the consumed prefix - i.e. each guarded input is a genuine failure of the
+   property, not an excused success *)
+Lemma guards_only_failures t bs v r :
+  wf_ty t = true -> decode_res current t bs = Ok (v, r) ->
+  has_type v t = true -> bs = spec_encode t v ++ r -> has_uint57 t v = false ->
+  bytes_overrun t bs = false /\ map_noncanonical t bs = false.
+Proof.
+  intros W C T E U.
+  (* a canonical input is accepted by every cfg with fix_map (round trip) *)
+  assert (R : forall c, fix_map c = true -> fix_uint57 c = false -> decode_res c t bs = Ok (v, r)).
+  { intros c Hm H57. rewrite E, <- (encode_canonical t v T). unfold decode_res, run_decode.
+    destruct (decode_encode c Hm t v r W T (or_intror U) 0) as [m' ->]. reflexivity. }
+  unfold bytes_overrun, map_noncanonical.
+  rewrite (R current eq_refl eq_refl), (R (with_bytes current) eq_refl eq_refl), (R (repaired current) eq_refl eq_refl).
+  now split.
 Qed.
